@@ -154,6 +154,7 @@ thread_local! {
     static BUILDS_OK: Cell<u64> = const { Cell::new(0) };
     static BUILDS_SLOW: Cell<u64> = const { Cell::new(0) };
     static PEEL_RETRY: Cell<u64> = const { Cell::new(0) };
+    static SHARD_RETRY: Cell<u64> = const { Cell::new(0) };
     static ABANDONED: Cell<u64> = const { Cell::new(0) };
     static MEMBERS: Cell<u64> = const { Cell::new(0) };
     static PROBES: Cell<u64> = const { Cell::new(0) };
@@ -236,6 +237,9 @@ fn run_filter<F>(
     }
     if s.group == "peel-retry" && kst.passes() > 1 {
         bump(&PEEL_RETRY, 1);
+    }
+    if s.group == "max-shard-retry" && kst.passes() > 1 {
+        bump(&SHARD_RETRY, 1);
     }
     c.check("len", len(&f) == n, || format!("filter.len() = {} but {} keys were inserted; {}; {}", len(&f), n, input, progress()));
     c.check("hash_bits", hash_bits(&f) == b, || format!("filter.hash_bits() = {} but {} bits were requested (word: {} bits); {}", hash_bits(&f), b, word_bits, input));
@@ -588,6 +592,28 @@ fn main() {
         }
     }
 
+    // 2c. sharded builds (4 and 8 shards) under many builder seeds: a few per cent
+    //     of them draw an unbalanced sharding (largest shard > 1.01 x average) and
+    //     must start over with a new seed *after rewinding their input* (release
+    //     builds only; c08_counters.sharded_builds_that_retried says how many did)
+    if !debug {
+        for v in 0..VARIANTS.len() {
+            let var = &VARIANTS[v];
+            if !var.name.contains("FuseLge3Shards") || !var.int_keys {
+                continue;
+            }
+            let plan: &[(usize, u64)] = if thorough { &[(200_000, 40), (400_000, 60), (799_999, 20)] } else { &[(200_000, 16), (400_000, 24)] };
+            for &(n, seeds) in plan {
+                for seed in 0..seeds {
+                    let b = if var.boxed { var.bits } else { var.bits.min(9) };
+                    let cfg = Cfg { seed: if seed % 2 == 0 { seed } else { 75 + 44 * seed }, hint: [Hint::Absent, Hint::Exact, Hint::Tenth][(seed % 3) as usize], ..Cfg::default() };
+                    let s = mk(&mut r, "max-shard-retry", n, b, 0, cfg);
+                    run(&mut ctx, v, s);
+                }
+            }
+        }
+    }
+
     // 3. random rounds: random width, size, configuration; rate judged when n >= 1000
     let rounds = ctx.scale(5, 8_000, 100_000);
     for _ in 0..rounds {
@@ -613,9 +639,10 @@ fn main() {
     }
 
     let counters = format!(
-        "{{\"builds_ok\":{},\"peel_regime_builds_that_retried\":{},\"slow_convergence_builds_over_64_attempts\":{},\"abandoned_after_a_no_progress_violation\":{},\"members_checked\":{},\"non_member_probes\":{},\"rate_bands_judged\":{},\"first_samples_outside_the_band_retested\":{}}}",
+        "{{\"builds_ok\":{},\"peel_regime_builds_that_retried\":{},\"sharded_builds_that_retried\":{},\"slow_convergence_builds_over_64_attempts\":{},\"abandoned_after_a_no_progress_violation\":{},\"members_checked\":{},\"non_member_probes\":{},\"rate_bands_judged\":{},\"first_samples_outside_the_band_retested\":{}}}",
         BUILDS_OK.with(|c| c.get()),
         PEEL_RETRY.with(|c| c.get()),
+        SHARD_RETRY.with(|c| c.get()),
         BUILDS_SLOW.with(|c| c.get()),
         ABANDONED.with(|c| c.get()),
         MEMBERS.with(|c| c.get()),
